@@ -25,7 +25,7 @@ UNIT = "ports.cpp"
 
 
 def _find(m, P, pat):
-    fs = [x for x in m.functions.values() if re.search(pat, P.dm(x.name))]
+    fs = [x for x in m.functions.values() if re.search(pat, P.dm(x.name)) and "::$_" not in P.dm(x.name) and "{lambda" not in P.dm(x.name)]
     if not fs:
         raise AnalysisBroken("anchor vanished: %s" % pat)
     return fs[0]
